@@ -26,7 +26,7 @@
      lm       s, d, out, mism, res: one direct call of ListMissingDestinationBlobs              Run(Pipe)
 
    Silent steps (no line): the memory halves of the two enqueue paths, the copier's memory delete.
-   Segments are independent; dead chain / high-water protocol as in Trace_Sync. *)
+   Segments are independent; dead chain as in Trace_Sync, every explained line is reported (see Mark). *)
 EXTENDS SyncValidate, Json, IOUtils
 
 VARIABLES l, dead, segno
@@ -53,8 +53,11 @@ TInit == /\ l = 1 /\ dead = TRUE /\ segno = 0
          /\ src0 = {} /\ d0 = [b \in Blobs |-> 0] /\ touched = {} /\ venq = {} /\ efault = {}
          /\ nfaults = 0 /\ nenv = 0
 
-ASSUME \A i \in 10..17 : TLCSet(i, 0)
-Mark == IF l > TLCGet(10 + segno) THEN TLCSet(10 + segno, l) /\ PrintT(<<"HW", l>>) ELSE TRUE
+\* Every line a live candidate state explains is printed (the orchestrator takes the set).  No high-water registers
+\* shared between segments: a segment with many silent steps lags behind the dead front-runner by as many BFS
+\* levels, so states of segments far apart coexist and a register indexed by (segment number mod 8) was overwritten by a
+\* later segment - lines of the earlier one then went unreported and a good run looked rejected.
+Mark == PrintT(<<"HW", l>>)
 IsEv(e) == l <= Len(Trace) /\ Ev.ev = e /\ l' = l + 1
 
 \* the copier's memory delete of b is carried across a line only while an upload hook of b can still see the blob
@@ -77,7 +80,7 @@ TReset == /\ IsEv("reset")
           /\ queue' = {Ev.rows[i] : i \in 1..Len(Ev.rows)}
           /\ smap' = [b \in Blobs |-> IF b <= Len(Ev.smap) THEN Ev.smap[b] ELSE 1]
           /\ FreshRest /\ dead' = FALSE
-          /\ segno' = (segno + 1) % 8 /\ TLCSet(10 + ((segno + 1) % 8), 0)
+          /\ segno' = (segno + 1) % 8
 
 UnchangedVal == UNCHANGED <<src, dsz, queue, smap, vrun, sh, round, ust, acked, nup, cst, fs,
                             src0, d0, touched, venq, efault, nfaults, nenv>>
